@@ -2,7 +2,7 @@
 
 CLAIMS = {
     "C19": dict(
-        text="Coq theorems (inverse laws, strict monotonicity, continuity incl. the Bark break-points, anchor values) about R-valued definitions that are regenerated from scales.py by a translator on every run; implementation values certified against those definitions by Interval.",
+        text="Coq theorems (inverse laws, strict monotonicity, continuity incl. the Bark break-points, anchor values; images: each map sends its domain into and onto the other's, so the two directions are mutually inverse bijections mel (-700,oo)<->R, octave (0,oo)<->R, Bark (-1960,oo)<->(-oo,27.6396), with injectivity corollaries) about R-valued definitions that are regenerated from scales.py by a translator on every run; implementation values certified against those definitions by Interval.",
         note="Trusted: Coq kernel; stdlib real-number axioms (sig_forall_dec, sig_not_dec, classic, functional_extensionality_dep) and, for interval, primitive int/float axioms; the ast translator gen/scales.py; float64 rounding not modelled (1e-9 tolerance).",
         technique="Coq proof over R on a model generated from source by translator + Interval-certified correspondence",
     ),
